@@ -190,6 +190,19 @@ def unshipped_modules(p: Program) -> Set[str]:
 EXIT_CODES_SPEC = {10: "completeness", 11: "verification failed", 12: "directory verification failed", 20: "single file not found", 21: "new files found", 30: "no history", 31: "modified manifest", 32: "no chain", 33: "missing manifest"}
 
 
+EXPECTED_CLASS_OF_CODE = {
+    10: "CompletenessCheckFailedException",
+    11: "VerificationFailedException",
+    12: "VerificationDirectoriesFailedException",
+    20: "SingleFileNotFoundException",
+    21: "NewFilesFoundException",
+    30: "NoMHLHistoryException",
+    31: "ModifiedMHLManifestFileException",
+    32: "NoMHLChainException",
+    33: "MissingMHLManifestException",
+}
+
+
 def exit_code_classes(p: Program) -> Dict[str, int]:
     """ClickException subclasses of the package with a constant exit_code"""
     out = {}
@@ -209,9 +222,13 @@ def exit_code_classes(p: Program) -> Dict[str, int]:
 
 def class_with_code(p: Program, code: int) -> str:
     hits = [cq for cq, c in exit_code_classes(p).items() if c == code]
-    if len(hits) != 1:
-        raise AnalysisError(f"expected exactly one ClickException subclass with exit_code {code}, found {hits}")
-    return hits[0]
+    if len(hits) == 1:
+        return hits[0]
+    # the code table itself is an obligation of R3.5 / R5.6; fall back to the class the property names for this code
+    q = "ascmhl.errors." + EXPECTED_CLASS_OF_CODE.get(code, "?")
+    if q in p.classes:
+        return q
+    raise AnalysisError(f"expected exactly one ClickException subclass with exit_code {code}, found {hits}")
 
 
 def raised_class(p: Program, f: Func, raise_stmt: ast.Raise) -> Optional[str]:
